@@ -6,3 +6,12 @@ void m4shim_djb_free(djb_t *z) { djb_free(z); }
 void m4shim_col_swap(mzd_t *M, rci_t a, rci_t b) { mzd_col_swap(M, a, b); }
 void m4shim_row_swap(mzd_t *M, rci_t a, rci_t b) { mzd_row_swap(M, a, b); }
 void m4shim_row_add_offset(mzd_t *M, rci_t dst, rci_t src, rci_t off) { mzd_row_add_offset(M, dst, src, off); }
+void m4shim_col_swap_in_rows(mzd_t *M, rci_t a, rci_t b, rci_t r0, rci_t r1) { mzd_col_swap_in_rows(M, a, b, r0, r1); }
+word m4shim_read_bits(mzd_t const *M, rci_t x, rci_t y, int n) { return mzd_read_bits(M, x, y, n); }
+int m4shim_read_bits_int(mzd_t const *M, rci_t x, rci_t y, int n) { return mzd_read_bits_int(M, x, y, n); }
+void m4shim_xor_bits(mzd_t *M, rci_t x, rci_t y, int n, word v) { mzd_xor_bits(M, x, y, n, v); }
+void m4shim_and_bits(mzd_t *M, rci_t x, rci_t y, int n, word v) { mzd_and_bits(M, x, y, n, v); }
+void m4shim_clear_bits(mzd_t *M, rci_t x, rci_t y, int n) { mzd_clear_bits(M, x, y, n); }
+void m4shim_combine(mzd_t *C, rci_t cr, wi_t cb, mzd_t const *A, rci_t ar, wi_t ab, mzd_t const *B, rci_t br, wi_t bb) { mzd_combine(C, cr, cb, A, ar, ab, B, br, bb); }
+word m4shim_hash(mzd_t const *A) { return mzd_hash(A); }
+void m4shim_fprint(FILE *f, mzd_t const *A) { mzd_fprint(f, A); }
